@@ -811,7 +811,12 @@ def run_sched_stream(prop, stream, tier, seed, workdir, scale=1):
     return sched_stream.run_sched_stream(prop, stream, tier, seed, workdir, scale)
 
 
-STREAM_RUNNERS = {"core": run_core_stream, "macro": run_macro_stream, "lines": run_lines_stream, "sched": run_sched_stream,
+def run_compile_stream(prop, stream, tier, seed, workdir, scale=1):
+    import compile_stream
+    return compile_stream.run_compile_stream(prop, stream, tier, seed, workdir, scale)
+
+
+STREAM_RUNNERS = {"compile": run_compile_stream, "core": run_core_stream, "macro": run_macro_stream, "lines": run_lines_stream, "sched": run_sched_stream,
                   "hammer": run_hammer_stream}
 
 
